@@ -24,6 +24,7 @@ RULE = (
     "a generated DiskDescriptor.xml, also with several storages (expanding with holes, and plain) behind one HDD; plus the repository's three fixtures against a naive reference reader. "
     "Non-trivial: >=2 clusters with a non-sequential placement or a mix of allocated/unallocated clusters. "
     "distinct = distinct (version, cluster size, states, BAT) signatures."
+    " Every stream additionally goes through: continuation sequences (read, visit elsewhere or have another user move the shared handles, resume at the earlier end / buffer end), reads under an injected transient backend I/O error followed by a retry on the same object (the failed call may raise; returned bytes must be right), and long reads (whole disk up to 24 MiB, else 6-24 MiB windows)."
 )
 ASSUMPTIONS = [
     "the harness's HDS writer/reference reader are a faithful reading of the ploop/Parallels layout",
